@@ -1,8 +1,8 @@
 (** Model of internal/server/response/envelope.go: extractHeader, QuoteOrNIL,
     parseAddressList, BuildEnvelope (statement by statement; ASCII domain for
-    ToUpper / TrimSpace).  [parse_address_list] returns [None] where the Go
-    code would panic on addr[start+1:end]; since e2cd37d (the closing '>' is
-    searched after the '<') that cannot happen any more.
+    ToUpper / TrimSpace).  Address lists are read by net/mail first
+    ([mail_parse], a parameter of the model); the comma splitting is the
+    fallback.  [None] = where the Go code would panic (unreachable since e2cd37d).
     No proofs in this file. *)
 From Coq Require Import String Ascii List Bool Arith ZArith.
 From Raven Require Import Base.GoStr.
@@ -104,18 +104,48 @@ Fixpoint parse_all (l : list str) : option (list str) :=
       end
   end.
 
-Definition parse_address_list (addresses : str) : option str :=
+(** today's splitting, now the fallback for headers net/mail does not parse *)
+Definition parse_fallback (addresses : str) : option str :=
+  match parse_all (split_byte addresses COMMA) with
+  | None => None
+  | Some [] => Some NIL
+  | Some l => Some (S_ "(" ++ join l [SP] ++ S_ ")")
+  end.
+
+(** strings.LastIndex(s, c) for one byte *)
+Definition last_index_byte (s : str) (c : ascii) : option nat :=
+  match index_byte (rev s) c with
+  | Some k => Some (length s - 1 - k)
+  | None => None
+  end.
+
+(** one *mail.Address: [name] is mime.QEncoding.Encode("utf-8", a.Name) (the
+    name itself when it is printable ASCII), [addr] is a.Address; the split is
+    at the LAST "@" *)
+Definition render_mail_addr (na : str * str) : str :=
+  let '(name, addr) := na in
+  let '(mailbox, host) :=
+    match last_index_byte addr AT_ with
+    | Some k => (firstn k addr, skipn (S k) addr)
+    | None => (addr, [])
+    end in
+  S_ "(" ++ quote_or_nil name ++ S_ " NIL " ++ quote_or_nil mailbox ++ [SP] ++ quote_or_nil host ++ S_ ")".
+
+(** parseAddressList.  [mail_parse] stands for net/mail's ParseAddressList
+    followed by the encoded-word encoding of each display name (Go libraries,
+    not modelled): [Some l] = parsed without error into the list l. *)
+Definition parse_address_list (mail_parse : str -> option (list (str * str))) (addresses : str) : option str :=
   match addresses with
   | [] => Some NIL
   | _ =>
-      match parse_all (split_byte addresses COMMA) with
-      | None => None
-      | Some [] => Some NIL
-      | Some l => Some (S_ "(" ++ join l [SP] ++ S_ ")")
+      match mail_parse addresses with
+      | Some (a :: l) => Some (S_ "(" ++ join (map render_mail_addr (a :: l)) [SP] ++ S_ ")")
+      | _ => parse_fallback addresses
       end
   end.
 
-Definition build_envelope (raw : str) : option str :=
+Definition build_envelope (mail_parse : str -> option (list (str * str))) (raw : str) : option str :=
+  let parse_address_list := parse_address_list mail_parse in
   let h := extract_header raw in
   let date := h (S_ "Date") in
   let subject := h (S_ "Subject") in
